@@ -2213,8 +2213,17 @@ def add_declarations(parent, node):
         return
     if not node["declarations"]:
         return
+    if not isinstance(node["declarations"], list):
+        raise RuntimeError(
+            "'declarations' must be a list, not {!r}, around line {}"
+            .format(node["declarations"], node.get("__line__", "?")))
 
     for subnode in node["declarations"]:
+        if not isinstance(subnode, dict):
+            raise RuntimeError(
+                "Each entry in 'declarations' must be a dictionary with "
+                "'decl' or 'block', found {!r} around line {}"
+                .format(subnode, node.get("__line__", "?")))
         if "block" in subnode:
             dct = copy.copy(subnode)
             clean_dictionary(dct)
@@ -2242,6 +2251,12 @@ def add_declarations(parent, node):
                     dct["splicer"],["c", "c_buf", "f", "py"]
                 )
             declnode = parent.add_declaration(decl, **dct)
+            if subnode.get("declarations") and \
+               not hasattr(declnode, "add_declaration"):
+                raise RuntimeError(
+                    "'declarations' is not allowed in '{}' at line {}, only a "
+                    "namespace, class, struct or block contains declarations"
+                    .format(decl, subnode.get("__line__", "?")))
             add_declarations(declnode, subnode)
         else:
             print(subnode)
